@@ -14,6 +14,10 @@ import (
 
 const defaultCharTrim = "\t \n\r"
 
+// maxStrLen is the maximum length in bytes of a string
+// that a built-in function builds by repetition
+const maxStrLen = 1 << 24
+
 // strLenFunc returns the length of the given string
 func strLenFunc(_ *ctx.EvalCtx, receiver object.Object, _ ...object.Object) (object.Object, error) {
 	val := receiver.(*object.Str).Value
@@ -282,7 +286,19 @@ func strRepeatFunc(_ *ctx.EvalCtx, receiver object.Object, args ...object.Object
 	}
 
 	val := receiver.(*object.Str).Value
-	repeated := strings.Repeat(val, int(firstArg.Value))
+	count := firstArg.Value
+
+	if count < 0 {
+		msg := fmt.Sprintf(fail.ErrFuncArgNegative, "repeat", object.STR_OBJ)
+		return nil, errors.New(msg)
+	}
+
+	if len(val) > 0 && count > maxStrLen/int64(len(val)) {
+		msg := fmt.Sprintf(fail.ErrFuncResultTooLong, "repeat", object.STR_OBJ, maxStrLen)
+		return nil, errors.New(msg)
+	}
+
+	repeated := strings.Repeat(val, int(count))
 
 	return &object.Str{Value: repeated}, nil
 }
